@@ -27,3 +27,13 @@ func NewTaskForVerif(name, taskId, hostname string, class *taskclass.Class) *Tas
 		commandInfo:  &common.TaskCommandInfo{CommandInfo: common.CommandInfo{Value: &value}},
 	}
 }
+
+// NewBareManagerForVerif is a Manager with a message channel and an empty roster and nothing else
+// (no scheduler, no Mesos): enough for code that only posts messages to it or looks tasks up.
+func NewBareManagerForVerif() *Manager {
+	return &Manager{
+		MessageChannel: make(chan *TaskmanMessage),
+		classes:        taskclass.NewClasses(),
+		roster:         newRoster(),
+	}
+}
